@@ -737,9 +737,9 @@ theorem filterCandset_full (a : CandsetArgs) (fp : Cell → Cell → Except PyEr
     (hv7 : validateAttrType a.lAttr l = .ok ()) (hv8 : validateAttrType a.rAttr r = .ok ())
     (hv9 : validateKeyAttr a.lKey l = .ok ()) (hv10 : validateKeyAttr a.rKey r = .ok ())
     (lval rval : Row → Cell)
-    (hl : ∀ cr ∈ c.rows, ∃ lrow ∈ l.rows, lrow.cell (l.colIdx a.lKey) = cr.cell (c.colIdx a.candLKey) ∧
+    (hl : ∀ cr ∈ c.rows, ∃ lrow ∈ l.rows, (lrow.cell (l.colIdx a.lKey)).pyEq (cr.cell (c.colIdx a.candLKey)) = true ∧
                                          lrow.cell (l.colIdx a.lAttr) = lval cr)
-    (hr : ∀ cr ∈ c.rows, ∃ rrow ∈ r.rows, rrow.cell (r.colIdx a.rKey) = cr.cell (c.colIdx a.candRKey) ∧
+    (hr : ∀ cr ∈ c.rows, ∃ rrow ∈ r.rows, (rrow.cell (r.colIdx a.rKey)).pyEq (cr.cell (c.colIdx a.candRKey)) = true ∧
                                          rrow.cell (r.colIdx a.rAttr) = rval cr)
     (hfp : ∀ cr ∈ c.rows, fp (lval cr) (rval cr) = .ok (fpb (lval cr) (rval cr)))
     (hlen : c.rows.length < 2 ^ 40) :
